@@ -53,16 +53,20 @@ Unit(
 # --------------------------------------------------------------------------
 from txvc.props import extra, replay_for  # noqa: E402
 
+from . import process_node as _pn  # noqa: E402,F401  (contract of the recursive call)
+
 PN = "call:model.process_node"
 NONMATCH = "(cls({n}) != Terminal and {n}.rule._tx_class._tx_type != 'match')"
 
+NT = "as_list(final_non_terminals)"
 Unit(
     "model.process_node.abstract-branch",
     target="textx/model.py::parse_tree_to_objgraph.process_node",
     region="if:mclass._tx_type == RULE_ABSTRACT",
     props=["C03"],
-    params={"node": "obj:NonTerminal[obj:ParseTreeNode]", "mclass": "obj"},
-    requires=["is_str(mclass._tx_type)", "len(node) >= 1",
+    params={"node": "obj:NonTerminal[obj:ParseTreeNode]", "mclass": "obj", "parser": "obj:TextXModelParser",
+            "metamodel": "obj:TextXMetaModel"},
+    requires=["is_str(mclass._tx_type)", "len(node) >= 1", "distinct(node, mclass, parser, metamodel)",
               # is_valid() of the parse tree below an abstract rule: every child that is not a Terminal was created
               # by a root rule, which carries its class
               "forall(lambda j: implies(0 <= j and j < len(node) and cls(node[j]) != Terminal,"
@@ -70,19 +74,27 @@ Unit(
     calls={"process_node": "model.process_node",
            "process_match": Ext("process_match", note="conversion of a match-rule subtree to a Python value"),
            "str": Ext("str", pure=True, raises=None, returns="str")},
+    loops={"for:non_terminals": Loop(pure=True, inv=[
+        "forall(lambda j: implies(0 <= j and j < _i, non_terminals[j].rule._tx_class._tx_type == 'match'))"])},
     returns="any",
     ensures=[
-        ("C03-abstract-rule-yields-its-first-non-match-child",
-         f"implies(old(mclass._tx_type) == 'abstract' and old(len(node)) > 1"
-         f" and exists_in(0, old(len(node)), lambda j: old({NONMATCH.format(n='node[j]')})),"
-         f" n_calls('{PN}') == 1 and result == evn('{PN}', 0).result"
-         f" and exists_in(0, old(len(node)), lambda k: evn('{PN}', 0).args['node'] == old(node[k])"
-         f" and old({NONMATCH.format(n='node[k]')})"
-         f" and forall(lambda j: implies(0 <= j and j < k, not old({NONMATCH.format(n='node[j]')})))))"),
-        ("C03-only-matches-in-the-alternative-yield-text",
-         f"implies(old(mclass._tx_type) == 'abstract' and old(len(node)) > 1"
-         f" and not exists_in(0, old(len(node)), lambda j: old({NONMATCH.format(n='node[j]')})),"
-         f" n_calls('{PN}') == 0 and is_str(result))"),
+        # (the child handed on is named through the loop variable `n` / the list `non_terminals` of the code: clauses
+        # with an existential "there is a first index k" were left undecided by both solvers)
+        ("C03-a-non-match-reference-is-preferred-and-it-is-the-first-one",
+         "implies(old(mclass._tx_type) == 'abstract' and old(len(node)) > 1 and n_calls('{PN}') == 1,"
+         " implies(old(evn('call:model.process_node', 0).args['node'].rule._tx_class._tx_type) != 'match',"
+         " result == evn('{PN}', 0).result and evn('call:model.process_node', 0).args['node'] == final_n and cls(final_n) != Terminal))"),
+        ("C03-a-match-reference-is-used-only-when-every-reference-is-a-match-rule",
+         "implies(old(mclass._tx_type) == 'abstract' and old(len(node)) > 1 and n_calls('{PN}') == 1,"
+         " implies(old(evn('call:model.process_node', 0).args['node'].rule._tx_class._tx_type) == 'match',"
+         " evn('call:model.process_node', 0).args['node'] == {NT}[0] and result == evn('{PN}', 0).result))"),
+        # The statement's other half - "the concatenated text when that alternative has only match rules" - is NOT what
+        # the code does when the alternative contains a reference to a match rule: it yields the value of the FIRST such
+        # reference (pinned by tests/functional/regressions/test_issue166.py, so not repairable here).  As a clause it
+        # was refuted on the real path but left undecided (weak counter-model) on an infeasible one; it is therefore
+        # decided by the battery scenario 'only-match-rules-in-the-alternative' and recorded as a known finding.
+        ("C03-without-any-rule-reference-the-text-is-concatenated",
+         f"implies(old(mclass._tx_type) == 'abstract' and old(len(node)) > 1 and n_calls('{PN}') == 0, is_str(result))"),
         ("C03-single-child-is-passed-through",
          f"implies(old(mclass._tx_type) == 'abstract' and old(len(node)) == 1,"
          f" n_calls('{PN}') == 1 and evn('{PN}', 0).args['node'] == old(node[0]) and result == evn('{PN}', 0).result)"),
@@ -166,18 +178,31 @@ def _c03_battery():
     return bad
 
 
+def _c03_only_matches():
+    """the alternative that matched has only match rules: the statement says the concatenated text"""
+    from textx import metamodel_from_str
+
+    mm = metamodel_from_str("Model: x=A; A: M N | C; M: 'm' INT; N: 'n' INT; C: 'c' v=INT;")
+    got = mm.model_from_str("m 1 n 2").x
+    return [] if got == "m1n2" else [f"'A: M N | C' on 'm 1 n 2' yields {got!r}, the concatenated text is 'm1n2'"]
+
+
 @extra("C03")
 def rule_kinds_battery(tier, seed):
-    bad = _c03_battery()
     res = {"name": "lang.rule-kinds.battery", "backend": "native run of the real metamodel and loader (bounded stand-in)",
            "obligations": 0, "discharged": 0, "bounded": True,
-           "bound": "2 grammars (nested / recursive abstract rules, match rules inside alternatives), 14 conformance queries",
-           "cases": 16, "violations": [], "detail": "rule kinds, classes of model objects, abstract-rule results, textx_isinstance"}
-    if bad:
-        res["violations"].append({"unit": "lang.rule-kinds.battery", "kind": "BOUNDED",
-                                  "label": "rule-kinds-and-conformance", "prop": "C03", "result": "refuted",
-                                  "text": "; ".join(bad[:4]), "where": "battery", "path": [],
-                                  "model": {"failures": bad[:8]}, "native": True, "time": 0, "reason": ""})
+           "bound": "3 grammars (nested / recursive abstract rules, match rules inside alternatives), 14 conformance queries",
+           "cases": 17, "violations": [], "detail": "rule kinds, classes of model objects, abstract-rule results, textx_isinstance"}
+    bad = _c03_battery()
+    rec = [b for b in bad if b.startswith("recursive abstract rule: textx_isinstance")]
+    other = [b for b in bad if b not in rec]
+    for label, items in (("rule-kinds-and-conformance", other),
+                         ("textx_isinstance-on-a-directly-recursive-abstract-rule", rec),
+                         ("only-match-rules-in-the-alternative", _c03_only_matches())):
+        if items:
+            res["violations"].append({"unit": "lang.rule-kinds.battery", "kind": "BOUNDED", "label": label, "prop": "C03",
+                                      "result": "refuted", "text": "; ".join(items[:4]), "where": "battery", "path": [],
+                                      "model": {"failures": items[:8]}, "native": True, "time": 0, "reason": ""})
     return res
 
 
